@@ -1150,3 +1150,152 @@ def _reach_node(cfg, a, b):
         seen.add(m.id)
         work += [s for (s, _l) in m.succs]
     return False
+
+
+def rule_t13(prog, rep, rid='T13'):
+    """A remembered node (a node-pointer field of the table record other than the root, assigned by a function that neither
+    frees nodes nor moves payloads - a lookup remembering what it found) is derived state.  Freeing a node, calling a
+    function that may free nodes, or moving a key from one node to another invalidates it: on every path after such an
+    event the field must be reset (NULL) or re-established before the function returns - unless the freed node is known
+    not to be the remembered one (the F edge of `field == node`)."""
+    rep.rule(rid, 'a remembered node of the tree table is reset or re-established after every event that frees a node or moves a key between '
+                  'nodes (unless the freed node is known to be a different one)')
+    prog.unit(UNIT)
+    funcs = [f for f in prog.funcs_in(UNIT) if f.body is not None]
+    u = prog.unit(UNIT)
+
+    def node_typed(e):
+        t = (qtype(strip(e)) or '')
+        if not t.rstrip().endswith('*'):
+            return False
+        return u.resolve_typedef(t.replace('*', '').replace('const', '').replace('struct', '').strip())[0] == NODE
+    # functions that may free a node
+    def fresh_locals(f):
+        """locals that hold a node allocated in this very function (never visible to a lookup yet)"""
+        out = set()
+        for y in walk(f.body):
+            init = None
+            nm = None
+            if y.get('kind') == 'VarDecl' and var_init(y) is not None:
+                init, nm = strip(var_init(y)), y.get('name')
+            elif y.get('kind') == 'BinaryOperator' and y.get('opcode') == '=' and strip(children(y)[0]).get('kind') == 'DeclRefExpr':
+                init, nm = strip(children(y)[1]), canon(children(y)[0])
+            if init is not None and init.get('kind') == 'CallExpr' and prog.callee_name(init) in ('malloc', 'calloc'):
+                out.add(nm)
+        return out
+
+    def frees_old_node(f, y):
+        return y.get('kind') == 'CallExpr' and prog.callee_name(y) == 'free' and len(children(y)) > 1 and node_typed(children(y)[1]) \
+            and access_path(children(y)[1]) not in fresh_locals(f)
+    freers = set()
+    for f in funcs:
+        if any(frees_old_node(f, y) for y in walk(f.body)):
+            freers.add(f.name)
+    changed = True
+    while changed:
+        changed = False
+        for f in funcs:
+            if f.name not in freers and any(y.get('kind') == 'CallExpr' and prog.callee_name(y) in freers for y in walk(f.body)):
+                freers.add(f.name)
+                changed = True
+
+    def moves_key(y):
+        if y.get('kind') == 'BinaryOperator' and y.get('opcode') == '=':
+            l, r = strip(children(y)[0]), strip(children(y)[1])
+            return l.get('kind') == 'MemberExpr' and l.get('name') == 'name' and (l.get('_field') or ('',))[0] == NODE and \
+                r.get('kind') == 'MemberExpr' and r.get('name') == 'name'
+        return False
+    # cache fields
+    assigned = {}
+    for f in funcs:
+        for y in walk(f.body):
+            if y.get('kind') == 'BinaryOperator' and y.get('opcode') == '=':
+                l = strip(children(y)[0])
+                if l.get('kind') == 'MemberExpr' and l.get('_field') and l['_field'][0] != NODE and l.get('name') != 'root' \
+                        and node_typed(l) and not is_null(children(y)[1]):
+                    assigned.setdefault((l['_field'][0], l.get('name')), set()).add(f.name)
+    mutators = {f.name for f in funcs if f.name in freers or any(moves_key(y) for y in walk(f.body))}
+    caches = {k for k, fs in assigned.items() if fs - mutators}
+    rep.notes['remembered_node_fields'] = sorted('%s.%s' % k for k in caches)
+    for (rec, fld) in sorted(caches):
+        def is_field(e):
+            e = strip(e)
+            return e.get('kind') == 'MemberExpr' and e.get('name') == fld and (e.get('_field') or ('',))[0] == rec
+
+        def analyse(f, dirty):
+            """does f return with the remembered node possibly stale?  -> (bool, line of the first invalidating event)"""
+            cfg = f.cfg
+            IN = {cfg.entry.id: frozenset([('st', 'V')])}
+            work = [cfg.entry]
+            first = {}
+            while work:
+                m = work.pop()
+                st = set(IN[m.id])
+                if isinstance(m.ast, dict) and m.kind != 'macro':
+                    for ev in node_events(m):
+                        if ev[0] == 'assign' and is_field(ev[1]):
+                            st = {x for x in st if x[0] != 'st'} | {('st', 'I' if is_null(ev[2]) else 'V')}
+                        elif ev[0] == 'assign' and moves_key(ev[3]):
+                            if ('st', 'V') in st:
+                                st.discard(('st', 'V'))
+                                st.add(('st', 'S'))
+                                first.setdefault('line', m.line)
+                        elif ev[0] == 'call':
+                            nm = prog.callee_name(ev[1])
+                            inval = False
+                            if frees_old_node(f, ev[1]):
+                                inval = ('ne', access_path(children(ev[1])[1])) not in st
+                            elif nm in dirty:
+                                inval = True
+                            if inval and ('st', 'V') in st:
+                                st.discard(('st', 'V'))
+                                st.add(('st', 'S'))
+                                first.setdefault('line', m.line)
+                st = frozenset(st)
+                for (s2, lab) in m.succs:
+                    st2 = st
+                    if m.kind == 'cond' and isinstance(m.ast, dict) and lab in ('T', 'F'):
+                        c = strip_parens(m.ast)
+                        if c.get('kind') == 'BinaryOperator' and c.get('opcode') in ('==', '!='):
+                            a, b = children(c)
+                            for (x1, x2) in ((a, b), (b, a)):
+                                if is_field(x1) and access_path(x2):
+                                    if (lab == 'F') == (c['opcode'] == '=='):
+                                        st2 = st | {('ne', access_path(x2))}
+                    old_ = IN.get(s2.id)
+                    if old_ is None:
+                        IN[s2.id] = st2
+                        work.append(s2)
+                    elif not st2 <= old_:
+                        IN[s2.id] = old_ | st2
+                        work.append(s2)
+            return ('st', 'S') in IN.get(cfg.exit.id, frozenset()), first.get('line')
+        # which functions can return with a stale remembered node (optimistic fixpoint over the call graph)
+        dirty, lines = set(), {}
+        changed = True
+        while changed:
+            changed = False
+            for f in funcs:
+                if f.name in dirty:
+                    continue
+                bad, line = analyse(f, dirty)
+                if bad:
+                    dirty.add(f.name)
+                    lines[f.name] = line
+                    changed = True
+        for f in sorted(funcs, key=lambda x: x.line or 0):
+            if f.static or f.name not in mutators and f.name not in dirty and not any(
+                    y.get('kind') == 'CallExpr' and prog.callee_name(y) in (freers | dirty) for y in walk(f.body)):
+                continue
+            rep.instance(rid)
+            bad = f.name in dirty
+            rep.oblige(rid, not bad, {'function': f.name, 'remembered_node': '%s.%s' % (rec, fld)})
+            if bad:
+                # name the static worker where the stale state arises, if any
+                inner = [g for g in funcs if g.static and g.name in dirty and any(
+                    y.get('kind') == 'CallExpr' and prog.callee_name(y) == g.name for y in walk(f.body))]
+                where = inner[0] if inner else f
+                rep.violation(rid, where, lines.get(where.name) or where.line, 'stale:%s' % fld,
+                              '%s (reached from %s) frees a node or moves a key between nodes (line %s) and the operation returns with the '
+                              'remembered node %s.%s neither reset nor re-established: the next lookup compares against freed memory or a '
+                              'node that now holds another key' % (where.name, f.name, lines.get(where.name), rec, fld))
